@@ -78,19 +78,19 @@ def run(P, C, tier):
     C.ob("R1", "lost-update", same_actor or (conditional and checked) or row_lock, nw.loc(),
          "serialisation of read and write of one row: same actor=%s, UPDATE conditional on the read version=%s with changed-row check=%s, per-row lock=%s -- two in-flight "
          "mutations of one row both read version v, both are acknowledged, the second UPDATE overwrites the first one's other fields" % (same_actor, conditional, checked, row_lock))
-    r3_room_definitions(P, C)
+    r3_room_definitions(P, C, "R3")
 
 
-def r3_room_definitions(P, C):
+def r3_room_definitions(P, C, R, announce=False):
     """clause that holds today: changes of a room DEFINITION in flight together are serialised by the authorisation actor"""
     from rules.c01 import arm_of
-    C.rule("R3", "pipelined or concurrent mutations of one room definition are applied one after another: when the writer reports the commit, the authorisation actor "
+    C.rule(R, "pipelined or concurrent mutations of one room definition are applied one after another: when the writer reports the commit, the authorisation actor "
                  "computes the room it installs from the mutation and the CURRENT in-memory room (validate_mutation in the same arm), never from a room computed "
                  "before the write was queued (two in-flight mutations would both derive from the same old room and the later install would drop the earlier change)")
     try:
         pm = P.body("AuthorisationService::process_message::{closure#0}")
     except mir.MissingAnchor as e:
-        C.anchor_missing("R3", "process_message", e)
+        C.anchor_missing(R, "process_message", e)
         return
     C.saw(pm)
     n = 0
@@ -119,7 +119,7 @@ def r3_room_definitions(P, C):
                         colx = pm.local_term(col[2], 0, True) if col[0] == "var" and len(col) > 2 else col
                         if mir.has_call(colx, r"RoomAuthorisations::validate_mutation$") is not None:
                             from_validation = True
-        C.ob("R3", "room-recomputed-at-commit:%s" % arm, revalidated and from_validation, pm.loc(bi),
+        C.ob(R, "room-recomputed-at-commit:%s" % arm, revalidated and from_validation, pm.loc(bi),
              "add_room installs %s" % ("the result of validate_mutation evaluated in the %s arm against the actor's current rooms" % arm if revalidated and from_validation else
                                        "a room that was computed before the write was queued (carried in the write message): acknowledged changes of a concurrently committed mutation of the same room are overwritten in memory"))
-    C.floor("R3", "room installs after a committed room mutation", n, 2)
+    C.floor(R, "room installs after a committed room mutation", n, 2)
